@@ -160,7 +160,98 @@ def op_temps(fn, counter):
     return changed
 
 
-OPS = {"lc2loop": op_lc2loop, "ifexp": op_ifexp, "swaparms": op_swaparms, "temps": op_temps}
+def _blocks(fn):
+    """Every statement list of the function (not of nested defs), for in-place rewriting."""
+    out = []
+
+    def rec(node):
+        for fld in ("body", "orelse", "finalbody"):
+            blk = getattr(node, fld, None)
+            if isinstance(blk, list) and blk and isinstance(blk[0], ast.stmt):
+                out.append((node, fld))
+                for st in blk:
+                    if not isinstance(st, (ast.FunctionDef, ast.ClassDef, ast.AsyncFunctionDef)):
+                        rec(st)
+        if isinstance(node, ast.Try):
+            for h in node.handlers:
+                rec(h)
+
+    rec(fn)
+    return out
+
+
+def _pure_leaf(e):
+    x = e
+    while isinstance(x, (ast.Attribute, ast.Subscript)):
+        if isinstance(x, ast.Subscript) and not isinstance(x.slice, (ast.Constant, ast.Name, ast.Slice, ast.Tuple)):
+            return False
+        x = x.value
+    return isinstance(x, (ast.Name, ast.Constant))
+
+
+def op_temps2(fn, counter):
+    """`x = a op <compound>` with a a plain access path -> `_t = <compound>` / `x = a op _t`"""
+    changed = 0
+    for node, fld in _blocks(fn):
+        blk, out = getattr(node, fld), []
+        for st in blk:
+            if isinstance(st, ast.Assign) and isinstance(st.value, ast.BinOp) and _pure_leaf(st.value.left) and isinstance(st.value.right, (ast.BinOp, ast.Call)) and not any(isinstance(x, (ast.NamedExpr, ast.Lambda, ast.ListComp, ast.GeneratorExp)) for x in ast.walk(st.value)):
+                t = _fresh("s", counter)
+                out.append(ast.Assign(targets=[ast.Name(id=t, ctx=ast.Store())], value=st.value.right))
+                st.value.right = ast.Name(id=t, ctx=ast.Load())
+                changed += 1
+            out.append(st)
+        setattr(node, fld, out)
+    return changed
+
+
+def op_rettemp(fn, counter):
+    """`return <expr>` -> `_r = <expr>` / `return _r`"""
+    changed = 0
+    for node, fld in _blocks(fn):
+        blk, out = getattr(node, fld), []
+        for st in blk:
+            if isinstance(st, ast.Return) and st.value is not None and not isinstance(st.value, (ast.Name, ast.Constant)):
+                t = _fresh("r", counter)
+                out.append(ast.Assign(targets=[ast.Name(id=t, ctx=ast.Store())], value=st.value))
+                st.value = ast.Name(id=t, ctx=ast.Load())
+                changed += 1
+            out.append(st)
+        setattr(node, fld, out)
+    return changed
+
+
+def op_splitand(fn, counter):
+    """`if a and b: S` (no else) -> `if a:` / `    if b: S`"""
+    changed = 0
+    for n in ast.walk(fn):
+        if isinstance(n, ast.If) and not n.orelse and isinstance(n.test, ast.BoolOp) and isinstance(n.test.op, ast.And) and len(n.test.values) == 2:
+            a, b = n.test.values
+            n.test = a
+            n.body = [ast.If(test=b, body=n.body, orelse=[])]
+            changed += 1
+    return changed
+
+
+def op_tuplesplit(fn, counter):
+    """`a, b = e1, e2` with independent sides -> `a = e1` / `b = e2`"""
+    changed = 0
+    for node, fld in _blocks(fn):
+        blk, out = getattr(node, fld), []
+        for st in blk:
+            if isinstance(st, ast.Assign) and len(st.targets) == 1 and isinstance(st.targets[0], ast.Tuple) and isinstance(st.value, ast.Tuple) and len(st.targets[0].elts) == len(st.value.elts) and all(isinstance(t, ast.Name) for t in st.targets[0].elts):
+                names = {t.id for t in st.targets[0].elts}
+                if not any(isinstance(x, ast.Name) and x.id in names for v in st.value.elts for x in ast.walk(v)):
+                    for t, v in zip(st.targets[0].elts, st.value.elts):
+                        out.append(ast.Assign(targets=[t], value=v))
+                    changed += 1
+                    continue
+            out.append(st)
+        setattr(node, fld, out)
+    return changed
+
+
+OPS = {"lc2loop": op_lc2loop, "ifexp": op_ifexp, "swaparms": op_swaparms, "temps": op_temps, "temps2": op_temps2, "rettemp": op_rettemp, "splitand": op_splitand, "tuplesplit": op_tuplesplit}
 
 
 def functions_of(tree):
